@@ -357,6 +357,74 @@ def check_response_api(W, rec, rng):
             rec.violation("C13/client-jar-set-replace-delete", f"domain={dom!r}: the server saw {got_!r}, expected {exp!r}", {"part": "response-api-jar", "domain": dom}, monitor="roundtrip")
 
 
+def check_jar_reentrant_and_clock(W, rec):
+    """Schedule: the application, while it answers a request of the test client, uses the same client for another
+    request (to another host, under another path) - the cookie it then sets belongs to the request it is answering.
+    History: the Expires that dump_cookie derives from max_age follows the clock at every call."""
+    import time as _time
+
+    from werkzeug.http import parse_date
+    from werkzeug.test import Client
+    from werkzeug.wrappers import Request, Response
+
+    seen = {}
+    box = {}
+
+    def app(environ, start_response):
+        rq = Request(environ)
+        seen.setdefault((rq.host, rq.path), []).append(dict(rq.cookies))
+        resp = Response("ok")
+        if rq.path == "/shop/outer":
+            box["client"].get("/other/deep/inner", base_url="http://other.example/").close()
+            resp.set_cookie("outer", "set-by-example.com", path=None)
+        elif rq.path == "/other/deep/inner":
+            resp.set_cookie("inner", "set-by-other.example", path=None)
+        return resp(environ, start_response)
+
+    c = box["client"] = Client(app)
+    c.get("/shop/outer", base_url="http://example.com/").close()
+    c.get("/shop/next", base_url="http://example.com/").close()
+    c.get("/other/deep/next", base_url="http://other.example/").close()
+    c.get("/elsewhere", base_url="http://other.example/").close()
+    rec.case()
+    rec.nontrivial(("jar-reentrant",))
+    rec.observe("client_used_reentrantly")
+    got = {k: v[-1] for k, v in seen.items()}
+    exp = {("example.com", "/shop/next"): {"outer": "set-by-example.com"}, ("other.example", "/other/deep/next"): {"inner": "set-by-other.example"}, ("other.example", "/elsewhere"): {}}
+    bad = {k: got.get(k) for k in exp if got.get(k) != exp[k]}
+    if bad:
+        rec.violation("C13/client-jar-cookie-filed-under-another-request", f"cookies set while the client was used re-entrantly: later requests saw {bad!r}, expected {({k: exp[k] for k in bad})!r}", {"part": "jar-reentrant"}, monitor="roundtrip")
+    # ---- Expires derived from max_age follows the clock
+    http = W["http"]
+
+    def exp_of(h):
+        for seg in h.split("; "):
+            if seg.startswith("Expires="):
+                return parse_date(seg[8:]).timestamp()
+        return None
+
+    stamps = []
+    for i in range(2):
+        t0 = _time.time()
+        hs = [http.dump_cookie("k", "v", max_age=60), http.dump_cookie("k", "v", max_age=timedelta(seconds=60), httponly=True)]
+        r_ = Response()
+        r_.set_cookie("k", "v", max_age=60)
+        hs.append(r_.headers["Set-Cookie"])
+        t1 = _time.time()
+        stamps.append((t0, t1, [exp_of(h) for h in hs]))
+        if i == 0:
+            _time.sleep(1.3)
+    rec.case()
+    rec.nontrivial(("expires-follows-clock",))
+    rec.observe("expires_derived_from_max_age_twice")
+    for t0, t1, es in stamps:
+        for e in es:
+            if e is None or not (int(t0) + 60 - 1 <= e <= int(t1) + 60 + 1):
+                rec.violation("C13/expires-not-now-plus-max-age", f"dump_cookie(max_age=60) called between {t0:.1f} and {t1:.1f} wrote Expires at {e} (a second call with the same arguments, {stamps[1][0] - stamps[0][0]:.1f}s after the first)",
+                              {"part": "expires-follows-clock"}, monitor="attribute-model")
+                return
+
+
 def rand_value(rng):
     out = []
     for _ in range(rng.randrange(0, 10)):
@@ -426,6 +494,8 @@ def run(shard, rec, rng):
             check_jar_path(W, rec, pth, rng.choice(["v", "a b;c", "é"]))
     if idx % 4 == 1:
         check_response_api(W, rec, rng)
+    if idx % 8 == 3:
+        check_jar_reentrant_and_clock(W, rec)
     # invalid samesite is refused
     if idx == 0:
         for bad in ("invalid", "lax; Secure", ""):
